@@ -371,7 +371,9 @@ def r3(ctx):
     # content columns read what the path leads to (open follows links, like sha1sum / wc / file): the open of a content
     # reader is not conditioned on the directory entry's own type (DirEntry::file_type and lstat do not follow links)
     n_open = 0
-    for fn in list(want) + ["util::get_line_count", "util::is_shebang"]:
+    readers = sorted(fn_ for fn_ in ctx.prog.fns if "{closure" not in fn_ and (fn_.startswith("util::") or fn_.startswith("<util::") or fn_ in ("function::get_value", GFV))
+                     and not fn_.startswith("util::wbuf"))
+    for fn in readers:
         h = ctx.prog.hir(fn)
         if h is None:
             continue
@@ -387,7 +389,7 @@ def r3(ctx):
                                   "%s opens the file only under `%s`: the entry's own type does not follow links, so a symbolic link to a regular file "
                                   "gets an empty value although its content is readable" % (short(fn, 1), txt[:160]))
     ctx.covered("File::open calls of the content readers not conditioned on the entry's own type", n_open, distinct_keys=["opens:%d" % n_open])
-    ctx.floor(n_open, 5, "File::open calls in the content readers", "util")
+    ctx.floor(n_open, 15, "File::open calls in the content readers", "util")
     # extension classes read their own configuration list (user config, then default config)
     n = 0
     for cls in ("is_zip_archive", "is_archive", "is_audio", "is_book", "is_doc", "is_font", "is_image", "is_source", "is_video"):
